@@ -800,6 +800,7 @@ def judge(chk, traces, label):
     v1 = validate(chk, again, label + "+Dev_MinOnOffSwapped", dev=True) if again else {}
     for t in runnable:
         v = v0[t["tid"]]
+        rp = t["replay"]
         count_monitors(chk, t)
         swapped = t["tid"] in v1 and not v1[t["tid"]]["rej"]
         if swapped:
